@@ -71,17 +71,15 @@ func (t *SafeState) merge(s sm.State, r Role) {
 		return
 	}
 
-	switch {
-	case s == sm.MIXED && t.state != sm.ERROR:
-		t.state = sm.MIXED
+	// The incoming value was read by the caller outside of any lock and may be
+	// outdated by the time we get here, so it must not be taken at face value
+	// (not even ERROR or MIXED): always recompute from the children's current states.
+	allRoles := r.GetRoles()
+	if len(allRoles) == 0 {
+		t.state = s
 		return
-	case s == sm.ERROR:
-		t.state = sm.ERROR
-		return
-	default:
-		allRoles := r.GetRoles()
-		t.state = aggregateState(allRoles)
 	}
+	t.state = aggregateState(allRoles)
 }
 
 func (t *SafeState) get() sm.State {
